@@ -357,6 +357,21 @@ def r_stationary_list(ctx):
            "a sample joins the stationary list exactly when its pruned gradient is zero" if oks else "the stationary list is not fed by `gradient decomposition == {}`", loc(fn, fn))
 
 
+def r_sample_registered(ctx):
+    """Every sample handed to add_point is appended to list_of_points, on every completing path (a sample recorded by a step, by the oracle or by the
+    user is never dropped, whatever was recorded before it)."""
+    fn = _fn(ctx, "add_point")
+    trip = params_of(fn)[1]
+    reg = [s for s in fn.body if isinstance(s, ast.Expr) and isinstance(s.value, ast.Call) and call_name(s.value) == "append" and dotted(s.value.func.value) == "self.list_of_points"]
+    pc = flow.path_counts(fn.body, lambda n: isinstance(n, ast.Call) and call_name(n) == "append" and dotted(n.func.value) == "self.list_of_points")
+    normal = pc.get("next", set()) | pc.get("return", set())
+    okr = len(reg) == 1 and dotted(reg[0].value.args[0]) == trip and normal == {1}
+    ctx.ob("R-ADDPOINT", "Function.add_point::registered", okr,
+           "every sample handed to add_point is appended to list_of_points, on every path" if okr else
+           "on some path add_point completes without registering the sample (appends per completing path: %s): whether a sample constrains the function "
+           "then depends on what was recorded before it" % sorted(normal), loc(fn, fn))
+
+
 def r_addpoint(ctx):
     fn = _fn(ctx, "add_point")
     trip = params_of(fn)[1]
@@ -453,12 +468,19 @@ def r_addpoint(ctx):
             return comps(e.args[0], depth + 1)
         return None
     dom = comps(iter_base(lp.iter)[0])
-    okd = dom is not None and sorted(dom) == [0, 1, 2] and dom[0] == 0
+    okd = dom == [0, 1, 2]
+    # ... and the lists are visited as the classification delivered them
+    touched = [c0 for c0 in ast.walk(comp[0]) if isinstance(c0, ast.Call) and isinstance(c0.func, ast.Attribute)
+               and c0.func.attr in ("sort", "reverse", "insert", "pop", "remove", "append", "extend", "clear")
+               and isinstance(c0.func.value, ast.Name) and comps(c0.func.value) is not None]
+    if okd and touched:
+        okd = False
+        dom = "%s after `%s`" % (dom, src(touched[0])[:60])
     ctx.ob("R-WSUM", "Function.add_point::terms visited", okd,
            "the distribution loop visits the terms that need nothing, then those that need a gradient / both, each once" if okd else
-           "the distribution loop runs over classification lists %s (0 = need nothing, 1 = need a gradient, 2 = need both): expected every list once, "
-           "the already evaluated terms first -- otherwise a term is skipped / visited twice, or the remainder is handed to a term that is already "
-           "evaluated at the point" % (dom if dom is not None else "`%s` (not resolved)" % src(lp.iter)), loc(fn, lp))
+           "the distribution loop runs over classification lists %s (0 = need nothing, 1 = need a gradient, 2 = need both): expected [0, 1, 2] as "
+           "classified -- otherwise a term is skipped / visited twice, or the remainder (gradient and value) is handed to a term that already has "
+           "a value at the point" % (dom if dom is not None else "`%s` (not resolved)" % src(lp.iter)), loc(fn, lp))
     gconds = [(t0, br) for t0, br, _ in flow.effective_guards(lp, stop=fn) if not (src(t0).replace(" ", "") in ("notself._is_leaf", "notself.get_is_leaf()"))]
     okg = False
     gmsg = "the distribution loop is not guarded by exactly one test"
